@@ -21,10 +21,12 @@
    Output of a step: the frames in the order the client sees/writes them, P f for a peer frame
    being processed and C f for a frame the client writes.
 
-   Not modelled: the gap between awaitFlowControl (cc.mu) and the DATA write (cc.wmu) - the step
-   is atomic here (see design.d/C06.md: probed on the real code by harness scenario S4);
-   goroutine wake-ups, timers, pings, HPACK, connection errors caused by a misbehaving peer
-   (guards exclude window overflows by the peer and INITIAL_WINDOW_SIZE > 2^31-1). *)
+   ESendData is one critical section in the code as well (since fix a783774 the credit is taken
+   with cc.wmu held).  EOpen is not: the stream slot and id are taken under cc.mu, the header
+   block is written under cc.wmu (design.d/C06.md, known finding race-open-vs-ack).
+   Not modelled: goroutine wake-ups, timers, pings, HPACK, connection errors caused by a
+   misbehaving peer (guards exclude window overflows by the peer, DATA after END_STREAM and
+   INITIAL_WINDOW_SIZE > 2^31-1). *)
 From Coq Require Import ZArith Bool List.
 From ReqV Require Import Lib.GoInt Gen.H2Flow Model.H2Flow Model.H2Monitor.
 Import ListNotations.
